@@ -32,7 +32,25 @@ FIXED = [
  "fixed: property=C13 8eda2bb every MEAN lowered to convolutions aborted with OverflowError (np.int32 num_elements_in_axis), tflite_graph_optimiser.py:2309/2449",
  "fixed: property=C12 3e245fc elementwise operator executed in place over an NPU-subgraph input (produced by a CPU operator) that a later subgraph still reads: CONV_2D(stride 4, CPU) -> MINIMUM(NPU) -> CUSTOM(CPU) ; RELU of the conv output in a second NPU subgraph (findings/F05-inplace-elementwise-shared-input.C12.json)",
 ]
-EXTRA = []
+EXTRA = [
+ dict(id="F06-slice-offset-scaled-by-stride", property="C13", status="known",
+      signature={"oracle": "internal_exception", "exc_type": "AssertionError", "site": "high_level_command_stream.py:__init__"}, requires_any=SLICES,
+      what="same root cause as F06: the mis-scaled slice offset makes the IFM box end before it starts and Box.__init__ asserts (compilation dies with AssertionError)",
+      example="findings/F06-slice-offset-scaled-by-stride.C13.json"),
+ dict(id="F06-slice-offset-scaled-by-stride", property="C13", status="known",
+      signature={"oracle": "internal_exception", "exc_type": "AssertionError", "site": "tensor.py:address_for_coordinate"}, requires_any=SLICES,
+      what="same root cause as F06: the mis-scaled slice offset produces a coordinate outside the tensor and address_for_coordinate asserts",
+      example="findings/F06-slice-offset-scaled-by-stride.C13b.json"),
+ dict(id="F07-pad-then-mean", property="C13", status="known",
+      signature={"oracle": "internal_exception", "exc_type": "AssertionError", "site": "tensor.py:address_for_coordinate"}, requires_layers=["PAD", "MEAN"],
+      what="PAD followed by MEAN over H and W: the explicit padding is fused into the depthwise/pool operator MEAN is lowered to, whose IFM box is then computed for the padded extent and address_for_coordinate asserts",
+      example="findings/F07-pad-then-mean.C13.json"),
+ dict(id="F08-resize-nn-align-corners", property="C13", status="known",
+      signature={"oracle": "internal_exception", "exc_type": "ValueError", "site": "tflite_graph_optimiser.py:convert_resizenn_ac_to_depthwise_conv"},
+      requires_any=["RESIZE_NEAREST_NEIGHBOR"],
+      what="RESIZE_NEAREST_NEIGHBOR with align_corners and more than one channel: convert_resizenn_ac_to_depthwise_conv reshapes upscale*upscale weight values into a [u,u,C,C] tensor (tflite_graph_optimiser.py:384-404) and numpy raises ValueError",
+      example="findings/F08-resize-nn-align-corners.C13.json"),
+]
 def main():
     import os
     out = []
@@ -47,7 +65,7 @@ def main():
                 out.append(e)
     extra = json.load(open("/verif/known_findings_extra.json")) if os.path.exists("/verif/known_findings_extra.json") else {"findings": [], "fixed": []}
     doc = {"comment": "Genuine defects of the pinned tree recorded (not repaired).  Never written at run time.  A finding suppresses only violations whose signature AND minimised context (layer kinds, size, op kind) match; anything else of the same property is still reported.  'fixed' lines suppress nothing.",
-           "findings": out + extra["findings"], "fixed": FIXED + extra["fixed"]}
+           "findings": out + EXTRA + extra["findings"], "fixed": FIXED + extra["fixed"]}
     json.dump(doc, open("/verif/known_findings.json", "w"), indent=1)
     print(len(doc["findings"]), "entries")
 main()
